@@ -229,6 +229,8 @@ func runCase(run *vh.Run, idx int, c Case) *obs {
 				run.Hist("oracle:pruned-query-not-expressible")
 			}
 		}
+		// a schema refresh landing between planning and the first hop changes nothing (last use of g)
+		defer refreshMidRequest(run, idx, &c, g, w, ob.res.subs, ob.res.plan, deepCopyJSON(gw))
 		strips := unionTypenameStrips(&c, retMap(c.Services), frags)
 		gwN := normaliseUnions(stripAt(gw, "", strips), "", strips)
 		monoN := normaliseUnions(mono, "", strips)
@@ -316,6 +318,11 @@ func flatInScope(ss *graphql.SelectionSet, typ string, rets map[string]fedgen.Re
 	return len(ss.Fragments) == 0 || typ == ""
 }
 
+func deepCopyJSON(v interface{}) interface{} {
+	c, _ := canonJSON(v)
+	return c
+}
+
 // searching: failing-input search (-search): variants of given cases, oracle only, no Coq cases
 var searching bool
 
@@ -350,7 +357,7 @@ func main() {
 	}
 	o := vh.ParseFlags()
 	run := vh.NewRun("C06", o)
-	run.Rule = "a case = (random set of field funcs over catalogue objects A-D, unions, a plain object; scalars, enums, lists, nullable and non-null results; arguments incl. input objects) x (random partition over 2-4 services, 20% of the fields on two services, random key struct per (service, object)) x (ServiceSelector choice) x (query: aliases, repeated aliases with different sub-selections at several levels (55%), @skip/@include (55%; literals and variables, both on one node, on field selections incl. __typename and repeated aliases, on inline fragments and on fragment spreads), inline / nested / named fragments, unions, arguments, depth 2-4) over a seeded world with nulls, null list elements and empty lists; non-trivial = gateway and monolith both answer, at least 2 sub-requests reach services and the answer is not {}; distinct by (partition, selector, query text)"
+	run.Rule = "a case = (random set of field funcs over catalogue objects A-D, unions, a plain object; scalars, enums, lists, nullable and non-null results; arguments incl. input objects) x (random partition over 2-4 services, 20% of the fields on two services, random key struct per (service, object)) x (ServiceSelector choice) x (query: aliases, repeated aliases with different sub-selections at several levels (55%), @skip/@include (55%; literals and variables, both on one node, on field selections incl. __typename and repeated aliases, on inline fragments and on fragment spreads), inline / nested / named fragments, unions, arguments, depth 2-4) fragments typed on a union spread under its member objects and under the union) over a seeded world with nulls, null list elements and empty lists; non-trivial = gateway and monolith both answer, at least 2 sub-requests reach services and the answer is not {}; distinct by (partition, selector, query text)"
 	r := vh.NewRng(o.Seed)
 
 	var cases []Case
